@@ -333,6 +333,23 @@ func coherent(d rscp.DataType) (why string) {
 		if goKind(rscp.VerifNewEmpty(d, 3)) != goKind(v) {
 			return fmt.Sprintf("decoder allocates %s, constructor returns %s", goKind(rscp.VerifNewEmpty(d, 3)), goKind(v))
 		}
+		// a message written to JSON by the package itself keeps its data type when read back (where it reads back at all)
+		if inIdx == 0 {
+			for _, tg := range []rscp.Tag{0x00800001, rscp.EMS_POWER_PV, rscp.INFO_SERIAL_NUMBER, rscp.BAT_DATA, rscp.BAT_REQ_DATA, 0x7f812345} {
+				mj := rscp.Message{Tag: tg, DataType: d, Value: v}
+				js, err := json.Marshal(mj)
+				if err != nil {
+					continue
+				}
+				var back rscp.Message
+				if err := json.Unmarshal(js, &back); err != nil {
+					continue
+				}
+				if back.DataType != d || back.Tag != tg {
+					return fmt.Sprintf("the message %s written to JSON as %s reads back with tag %d and data type %s", msgsString([]rscp.Message{mj}), trunc(string(js), 100), uint32(back.Tag), back.DataType)
+				}
+			}
+		}
 		// a message object that names its data type explicitly is read with that data type — under a tag without a
 		// declared type, under an unknown tag and under tags that declare another type
 		if inIdx == 0 {
